@@ -1,371 +1,6 @@
-import Model.Authorize
+import Props.C05Core
+import Props.C05Issuer
 /-
-  C05 — the authorization endpoint never sends the user agent to an unregistered URI; state is
-  echoed exactly once; credentials only on approval.
+  C05 — the authorization endpoint. `Props.C05Core` (namespace `Props.C05`): redirect targets, state,
+  credentials. `Props.C05Issuer`: the same with the RFC 9207 issuer extension registered.
 -/
-namespace Props.C05
-open Model.Authorize
-
-/-- what a validated redirect target is -/
-def Registered (cfg : Config) (r : Req) (t : String) : Prop :=
-  ∃ c id, r.clientId = some id ∧ c ∈ cfg.clients ∧ c.id = id ∧ t ∈ c.uris ∧
-    (r.redirectUri = some t ∨ (truthy r.redirectUri = false ∧ c.uris.head? = some t))
-
-theorem validateRedirect_spec (r : Req) (c : Client) (u : String) (h : validateRedirect r c = some u) :
-    u ∈ c.uris ∧ (r.redirectUri = some u ∨ (truthy r.redirectUri = false ∧ c.uris.head? = some u)) := by
-  unfold validateRedirect at h
-  by_cases ht : truthy r.redirectUri = true
-  · simp only [ht, if_true] at h
-    cases hr : r.redirectUri with
-    | none => simp [hr] at h
-    | some v =>
-      simp only [hr] at h
-      split at h
-      · rename_i hc
-        injection h with h; subst h
-        exact ⟨by simpa using hc, Or.inl rfl⟩
-      · cases h
-  · have hf : truthy r.redirectUri = false := by simpa using ht
-    simp only [hf, Bool.false_eq_true, if_false] at h
-    refine ⟨?_, Or.inr ⟨hf, h⟩⟩
-    cases hu : c.uris with
-    | nil => simp [hu] at h
-    | cons a as => simp [hu] at h; subst h; simp
-
-theorem find_mem {α} (p : α → Bool) : ∀ (l : List α) (a : α), l.find? p = some a → a ∈ l ∧ p a = true
-  | [], a, h => by simp at h
-  | x :: l, a, h => by
-    simp only [List.find?_cons] at h
-    split at h
-    · rename_i hx; injection h with h; subst h; exact ⟨by simp, hx⟩
-    · obtain ⟨h1, h2⟩ := find_mem p l a h
-      exact ⟨by simp [h1], h2⟩
-
-theorem identifyClient_spec (cfg : Config) (g : GrantKind) (r : Req) (c : Client)
-    (h : identifyClient cfg g r = some c) : ∃ id, r.clientId = some id ∧ c ∈ cfg.clients ∧ c.id = id := by
-  have key : ∀ id, findClient cfg id = some c → c ∈ cfg.clients ∧ c.id = id := by
-    intro id hf
-    obtain ⟨h1, h2⟩ := find_mem _ cfg.clients c hf
-    exact ⟨h1, by simpa using h2⟩
-  unfold identifyClient at h
-  cases hid : r.clientId with
-  | none => cases g <;> simp [hid] at h
-  | some id =>
-    cases g <;> simp only [hid] at h
-    · exact ⟨id, rfl, key id h⟩
-    · split at h
-      · cases h
-      · cases hf : findClient cfg id with
-        | none => simp [hf] at h
-        | some c' =>
-          simp only [hf] at h
-          split at h
-          · injection h with h; subst h; exact ⟨id, rfl, key id hf⟩
-          · cases h
-    · split at h
-      · cases h
-      · cases hf : findClient cfg id with
-        | none => simp [hf] at h
-        | some c' =>
-          simp only [hf] at h
-          split at h
-          · injection h with h; subst h; exact ⟨id, rfl, key id hf⟩
-          · cases h
-    · exact ⟨id, rfl, key id h⟩
-
-/-- after the redirect target is fixed, validation errors go to that target and nowhere else -/
-theorem validateAfterRedirect_target (cfg : Config) (g : GrantKind) (r : Req) (c : Client) (ru : String)
-    (resp : Resp) (h : validateAfterRedirect cfg g r c ru = some resp) :
-    ∃ m ps, resp = .redirect ru m ps := by
-  unfold validateAfterRedirect at h
-  cases g <;> simp only at h <;> (repeat' split at h) <;>
-    first
-    | (injection h with h; subst h; exact ⟨_, _, rfl⟩)
-    | cases h
-
-theorem front_spec (cfg : Config) (r : Req) :
-    (∀ g c ru, front cfg r = .ok (g, c, ru) → Registered cfg r ru) ∧
-    (∀ t m ps, front cfg r = .error (.redirect t m ps) → Registered cfg r t) ∧
-    (front cfg r ≠ .error .consentPage) := by
-  unfold front
-  cases hg : findGrant cfg (normRt r.responseType) with
-  | none => simp
-  | some g =>
-    simp only
-    cases hc : identifyClient cfg g r with
-    | none => simp
-    | some c =>
-      simp only
-      cases hv : validateRedirect r c with
-      | none => simp
-      | some ru =>
-        simp only
-        obtain ⟨id, hid, hmem, hcid⟩ := identifyClient_spec cfg g r c hc
-        obtain ⟨hin, hsrc⟩ := validateRedirect_spec r c ru hv
-        have reg : Registered cfg r ru := ⟨c, id, hid, hmem, hcid, hin, hsrc⟩
-        cases ha : validateAfterRedirect cfg g r c ru with
-        | none =>
-          refine ⟨?_, by simp, by simp⟩
-          intro g' c' ru' h
-          simp only [Except.ok.injEq, Prod.mk.injEq] at h
-          obtain ⟨_, _, rfl⟩ := h
-          exact reg
-        | some resp =>
-          obtain ⟨m, ps, rfl⟩ := validateAfterRedirect_target cfg g r c ru resp ha
-          refine ⟨by simp, ?_, by simp⟩
-          intro t m' ps' h
-          simp only [Except.error.injEq, Resp.redirect.injEq] at h
-          obtain ⟨rfl, _, _⟩ := h
-          exact reg
-
-theorem deliver_target (ru : String) (ps : List (String × String)) (mode : Option String) (dflt t : String)
-    (m : Mode) (ps' : List (String × String)) (h : deliver ru ps mode dflt = .redirect t m ps') : t = ru ∧ ps' = ps := by
-  unfold deliver at h
-  split at h <;> first | (injection h with h1 h2 h3; exact ⟨h1.symm, h3.symm⟩) | cases h
-
-/-- **C05 (decision step).** Whatever the request, configuration and decision: a 302 / form_post
-    response goes only to a redirect URI the identified, existing client has registered — the one
-    in the request if the client accepts it, else the client's default. -/
-theorem redirect_only_to_registered (cfg : Config) (r : Req) (approve : Bool) (t : String) (m : Mode)
-    (ps : List (String × String)) (h : respond cfg r approve = .redirect t m ps) : Registered cfg r t := by
-  obtain ⟨hok, herr, _⟩ := front_spec cfg r
-  unfold respond at h
-  cases hf : front cfg r with
-  | error resp =>
-    simp only [hf] at h; subst h
-    exact herr t m ps hf
-  | ok v =>
-    obtain ⟨g, c, ru⟩ := v
-    have reg := hok g c ru hf
-    simp only [hf] at h
-    cases g <;> simp only at h
-    · split at h <;> (injection h with h1; subst h1; exact reg)
-    · split at h <;> (injection h with h1; subst h1; exact reg)
-    · obtain ⟨rfl, _⟩ := deliver_target _ _ _ _ _ _ _ h; exact reg
-    · obtain ⟨rfl, _⟩ := deliver_target _ _ _ _ _ _ _ h; exact reg
-
-/-- **C05 (consent step, GET).** Same statement for `get_consent_grant` + error handler. -/
-theorem consent_redirect_only_to_registered (cfg : Config) (r : Req) (user : Bool) (t : String) (m : Mode)
-    (ps : List (String × String)) (h : consent cfg r user = .redirect t m ps) : Registered cfg r t := by
-  obtain ⟨hok, herr, _⟩ := front_spec cfg r
-  have prompt_target : ∀ ru md resp, promptCheck r user ru md = some resp → ∃ m' ps', resp = .redirect ru m' ps' := by
-    intro ru md resp hp
-    unfold promptCheck at hp
-    cases hpr : r.prompt with
-    | none => simp [hpr] at hp
-    | some pv =>
-      simp only [hpr] at hp
-      by_cases h1 : pv.isEmpty = true
-      · simp [h1] at hp
-      · simp only [h1, Bool.false_eq_true, if_false] at hp
-        by_cases h2 : (pv == "none" && !user) = true
-        · simp only [h2, if_true] at hp
-          injection hp with hp; subst hp; exact ⟨_, _, rfl⟩
-        · simp only [h2, Bool.false_eq_true, if_false] at hp
-          by_cases h3 : ((Model.Text.splitWs pv.toList).contains "none".toList && decide ((Model.Text.splitWs pv.toList).length > 1)) = true
-          · simp only [h3, if_true] at hp
-            injection hp with hp; subst hp; exact ⟨_, _, rfl⟩
-          · simp only [h3, Bool.false_eq_true, if_false] at hp
-            cases hp
-  unfold consent at h
-  cases hg : findGrant cfg (normRt r.responseType) with
-  | none => simp [hg] at h
-  | some g0 =>
-    simp only [hg] at h
-    split at h
-    · cases h
-    · cases hf : front cfg r with
-      | error resp =>
-        simp only [hf] at h; subst h
-        exact herr t m ps hf
-      | ok v =>
-        obtain ⟨g, c, ru⟩ := v
-        have reg := hok g c ru hf
-        simp only [hf] at h
-        split at h
-        · rename_i resp hchk
-          subst h
-          have : ∃ m' ps', Resp.redirect t m ps = .redirect ru m' ps' := by
-            cases g <;> simp only at hchk
-            · split at hchk
-              · exact prompt_target _ _ _ hchk
-              · cases hchk
-            · cases hchk
-            · exact prompt_target _ _ _ hchk
-            · exact prompt_target _ _ _ hchk
-          obtain ⟨_, _, e⟩ := this
-          injection e with e1; subst e1; exact reg
-        · cases h
-
-/-! ### state, credentials -/
-
-def stateValues (ps : List (String × String)) : List String := (ps.filter (fun p => p.1 == "state")).map (·.2)
-
-theorem stateValues_errorParams (e : String) (s : Option String) :
-    stateValues (errorParams e s) = if truthy s then [s.getD ""] else [] := by
-  cases s with
-  | none => simp [errorParams, stateValues, truthy]
-  | some v =>
-    by_cases hv : v.isEmpty
-    · simp [errorParams, stateValues, truthy, hv]
-    · simp [errorParams, stateValues, truthy, hv]
-
-theorem stateValues_granted (g : GrantKind) (rt : String) (s : Option String) :
-    stateValues (grantedParams g rt ++ stateParam s) = if truthy s then [s.getD ""] else [] := by
-  have hk : ∀ p ∈ grantedParams g rt, (p.1 == "state") = false := by
-    intro p hp
-    have : p.1 = "code" ∨ p.1 = "access_token" ∨ p.1 = "token_type" ∨ p.1 = "id_token" := by
-      unfold grantedParams at hp
-      cases g <;> simp only at hp
-      · simp at hp; subst hp; simp
-      · simp at hp; rcases hp with rfl | rfl <;> simp
-      · split at hp
-        · simp at hp; subst hp; simp
-        · simp at hp; rcases hp with rfl | rfl | rfl <;> simp
-      · simp only [List.mem_append, List.mem_cons, List.mem_nil_iff, or_false] at hp
-        rcases hp with rfl | hp
-        · simp
-        · split at hp
-          · simp only [List.mem_append, List.mem_cons, List.mem_nil_iff, or_false] at hp
-            rcases hp with (rfl | rfl) | hp
-            · simp
-            · simp
-            · split at hp
-              · simp at hp; subst hp; simp
-              · simp at hp
-          · simp at hp; subst hp; simp
-    rcases this with h | h | h | h <;> rw [h] <;> decide
-  have h1 : stateValues (grantedParams g rt) = [] := by
-    unfold stateValues
-    rw [List.filter_eq_nil_iff.mpr (by intro p hp; simp [hk p hp])]
-    rfl
-  unfold stateValues at h1 ⊢
-  rw [List.filter_append, List.map_append, h1]
-  cases s with
-  | none => simp [stateParam, truthy]
-  | some v =>
-    by_cases hv : v.isEmpty
-    · simp [stateParam, truthy, hv]
-    · simp [stateParam, truthy, hv]
-
-/-- **state is returned unchanged, exactly once** (and not at all when the request had none) in
-    every redirect the decision step produces -/
-theorem state_echoed_once_unchanged (cfg : Config) (r : Req) (approve : Bool) (t : String) (m : Mode)
-    (ps : List (String × String)) (h : respond cfg r approve = .redirect t m ps) :
-    stateValues ps = if truthy r.state then [r.state.getD ""] else [] := by
-  unfold respond at h
-  cases hf : front cfg r with
-  | error resp =>
-    simp only [hf] at h; subst h
-    -- the error came from validateAfterRedirect: all of its redirects are errorParams
-    unfold front at hf
-    cases hg : findGrant cfg (normRt r.responseType) with
-    | none => simp [hg] at hf
-    | some g =>
-      simp only [hg] at hf
-      cases hc : identifyClient cfg g r with
-      | none => simp [hc] at hf
-      | some c =>
-        simp only [hc] at hf
-        cases hv : validateRedirect r c with
-        | none => simp [hv] at hf
-        | some ru =>
-          simp only [hv] at hf
-          cases ha : validateAfterRedirect cfg g r c ru with
-          | none => simp [ha] at hf
-          | some resp =>
-            simp only [ha, Except.error.injEq] at hf
-            subst hf
-            unfold validateAfterRedirect at ha
-            cases g <;> simp only at ha <;> (repeat' split at ha) <;>
-              first
-              | (injection ha with ha; injection ha with _ _ hps; subst hps; exact stateValues_errorParams _ _)
-              | cases ha
-  | ok v =>
-    obtain ⟨g, c, ru⟩ := v
-    simp only [hf] at h
-    cases g <;> simp only at h
-    · split at h <;> (injection h with _ _ hps; subst hps) <;>
-        first | exact stateValues_granted _ _ _ | exact stateValues_errorParams _ _
-    · split at h <;> (injection h with _ _ hps; subst hps) <;>
-        first | exact stateValues_granted _ _ _ | exact stateValues_errorParams _ _
-    · obtain ⟨_, rfl⟩ := deliver_target _ _ _ _ _ _ _ h
-      split <;> first | exact stateValues_granted _ _ _ | exact stateValues_errorParams _ _
-    · obtain ⟨_, rfl⟩ := deliver_target _ _ _ _ _ _ _ h
-      split <;> first | exact stateValues_granted _ _ _ | exact stateValues_errorParams _ _
-
-def isCredential (k : String) : Bool := k == "code" || k == "access_token" || k == "id_token"
-
-theorem errorParams_no_credential (e : String) (s : Option String) :
-    ∀ p ∈ errorParams e s, isCredential p.1 = false := by
-  intro p hp
-  unfold errorParams at hp
-  rcases List.mem_append.mp hp with hp | hp
-  · simp at hp; subst hp; rfl
-  · split at hp
-    · split at hp
-      · simp at hp
-      · simp at hp; subst hp; rfl
-    · simp at hp
-
-/-- **a code or token appears only if the resource owner approved** -/
-theorem credential_only_if_approved (cfg : Config) (r : Req) (approve : Bool) (t : String) (m : Mode)
-    (ps : List (String × String)) (h : respond cfg r approve = .redirect t m ps)
-    (hcred : ∃ p ∈ ps, isCredential p.1 = true) : approve = true := by
-  obtain ⟨p, hp, hcr⟩ := hcred
-  cases approve with
-  | true => rfl
-  | false =>
-    exfalso
-    have contra : ∀ e s, p ∈ errorParams e s → False := by
-      intro e s hm
-      have := errorParams_no_credential e s p hm
-      rw [hcr] at this; cases this
-    unfold respond at h
-    cases hf : front cfg r with
-    | error resp =>
-      simp only [hf] at h; subst h
-      unfold front at hf
-      cases hg : findGrant cfg (normRt r.responseType) with
-      | none => simp [hg] at hf
-      | some g =>
-        simp only [hg] at hf
-        cases hc : identifyClient cfg g r with
-        | none => simp [hc] at hf
-        | some c =>
-          simp only [hc] at hf
-          cases hv : validateRedirect r c with
-          | none => simp [hv] at hf
-          | some ru =>
-            simp only [hv] at hf
-            cases ha : validateAfterRedirect cfg g r c ru with
-            | none => simp [ha] at hf
-            | some resp =>
-              simp only [ha, Except.error.injEq] at hf
-              subst hf
-              unfold validateAfterRedirect at ha
-              cases g <;> simp only at ha <;> (repeat' split at ha) <;>
-                first
-                | (injection ha with ha; injection ha with _ _ hps; subst hps; exact contra _ _ hp)
-                | cases ha
-    | ok v =>
-      obtain ⟨g, c, ru⟩ := v
-      simp only [hf] at h
-      cases g <;> simp only [Bool.false_eq_true, if_false] at h
-      · injection h with _ _ hps; subst hps; exact contra _ _ hp
-      · injection h with _ _ hps; subst hps; exact contra _ _ hp
-      · obtain ⟨_, rfl⟩ := deliver_target _ _ _ _ _ _ _ h; exact contra _ _ hp
-      · obtain ⟨_, rfl⟩ := deliver_target _ _ _ _ _ _ _ h; exact contra _ _ hp
-
-/-- non-vacuity and the formerly failing witness: an unregistered redirect_uri with a missing
-    openid scope is now answered locally -/
-def exCfg1 : Config := { grants := [GrantKind.code, GrantKind.oidcImplicit, GrantKind.hybrid, GrantKind.implicit], clients := [Client.mk "pub" ["https://good/cb"] ["id_token"] "none"], scopesSupported := none, oidcCodeExt := true, requireNonce := false, usedNonces := [] }
-def exReq1 : Req := { responseType := some "id_token", clientId := some "pub", redirectUri := some "https://evil/cb", scope := some "profile", state := some "s" }
-example : respond exCfg1 exReq1 true = .localError 400 "invalid_request" := by decide +kernel
-
-def exCfg2 : Config := { grants := [GrantKind.code], clients := [Client.mk "c" ["https://good/cb"] ["code"] "client_secret_basic"], scopesSupported := none, oidcCodeExt := false, requireNonce := false, usedNonces := [] }
-def exReq2 : Req := { responseType := some "code", clientId := some "c", redirectUri := none, scope := none, state := some "xyz" }
-example : respond exCfg2 exReq2 true = .redirect "https://good/cb" .query [("code", "<code>"), ("state", "xyz")] := by
-  decide +kernel
-
-end Props.C05
